@@ -236,7 +236,7 @@ def run_solve_t(Model, case):
             if case.get('entry') == 'solve_period':
                 obs['ret'] = m.solve_period(m.span[tn], **kw)
             else:
-                obs['ret'] = m.solve_t(t, **kw)
+                obs['ret'] = m.solve_t(np.int64(t) if case.get('t_numpy') else t, **kw)
             obs['kind'] = 'ret'
         except BaseException as e:  # noqa: BLE001 - the class is the observation
             obs['kind'] = 'exc'
